@@ -242,6 +242,11 @@ def run(cx):
 
     with cx.ob("C12.8", "R-SHAPE", "one layer out: closed world of destructors (the only per-request destructor is the stream wrapper's reset)") as ob:
         check_drop_impls_closed(ob, prog, ["anemo::connection::SendStream", "anemo::network::connection_manager::ConnectionManager"])
+        # ... so whatever a dropped request future held is given back by its owner's destructor: the tower layers never take a
+        # resource out of RAII's hands (a forgotten permit that is "released" by a callback is lost when the future is dropped)
+        check_no_calls(ob, prog, ("tokio::sync::semaphore::SemaphorePermit::forget", "tokio::sync::semaphore::OwnedSemaphorePermit::forget", "core::mem::forget",
+                                  "mem::manually_drop::ManuallyDrop::new", "alloc::boxed::Box::leak", "tokio::sync::semaphore::Semaphore::add_permits", "Semaphore::forget_permits"),
+                       crates=["anemo_tower"], what="resource taken out of RAII (forget / add_permits)")
 
     with cx.ob("C12.9", "R-PANIC", "an abandoned RPC ends only its own request task: whatever the abandoning caller makes fail on the serving side (a write after STOP_SENDING, a read after RESET) is an error the task returns, not a panic - a panic is re-raised by the connection handler and the manager and takes every other RPC down (C06.1a, C06.2 re-evaluated)") as ob:
         from . import c06
